@@ -11,6 +11,11 @@ TEXT = {
  "C05": ("dense_correct / sparse_correct / sparse_lower for every duplicate-free decomposition and symmetric G; collect+tee stream compares the sent list, dense matrices and the MOSEK Task call list of the real wrappers with the model; translator oracle evaluates the real matrices exactly.", "6 C05"),
  "C06": ("Homomorphism, comparison and well-formedness theorems on the literal dictionary compositions of the overloads; tree stream is bit-exact model = implementation; direct oracles: exact evaluation of random trees and the full operator x operand-kind table.", "6 C06"),
  "C07": ("One-step and loop theorems on the value-level function machine (oracleLeafA_spec, distribute_spec, classify_perm, addPointA_composite_spec, sum_consistent_*), run beside the handle-level world and the implementation by the oracle stream. Partial: the global invariant over all op sequences is not yet closed in Lean; exact arithmetic.", "6 C07"),
+ "C08": ("den_* theorems on the step formula functions the executable step models are built from (returned-point relations, side constraints of every option), real_sound for proximal / linear-optimisation / inexact-gradient steps; steps stream compares returned points, recorded samples, constraints, names, counters with the real steps; exact-evaluation oracle re-derives the documented relations independently. Partial: line-search, Bregman and inexact-prox real sides not formalised.", "6 C08"),
+ "C09": ("pipeline_sound: for every real execution (actual vectors in any inner-product space) at whose Gram matrix the sent constraints hold, performance <= tau under the certificate identity (cert_sound + Matrix.posSemidef_gram); constraint validity for members comes from the C03/C08 theorems. Supported by independent NumPy runs of 10 method families on concrete members. Partial: fidelity of each example script to its named method is only sampled.", "6 C09"),
+ "C10": ("Mostly correspondence: 19 published closed forms transcribed as executable Lean definitions with decidable validity ranges, compared with the examples on parameter grids inside those ranges; all 103 suite calls against a frozen claim table; equivalent formulations. Lean proves only that the gradient-descent contraction rate is attained by real members and small algebraic facts; SDP-optimum = closed-form is NOT formalised.", "6 C10"),
+ "C11": ("row_holds_iff / dense_holds_iff / backends_same_constraint (both back-ends impose evalGF(expr) <= 0 / = 0), lmi_row_iff (coupling rows), mrecover_spec (MOSEK dual routing for all item lists); the real MosekWrapper's Task call list is compared with the model on a stand-in mosek module; numeric oracle runs both back-ends. Partial: real MOSEK is absent.", "6 C11"),
+ "C14": ("duals_from_first_solve / recover_once_after_first_solve / primal_from_last_solve on the flow model (compared call by call with _solve_with_wrapper under a scripted wrapper for every option), and the optimisation argument (heuristic_feasible, primal_within_tol, trace_nonincreasing) for an optimal-solver oracle; numeric oracle with real solves on well and badly scaled models. Partial: solver optimality is an assumption.", "6 C14"),
  "C12": ("reset_covers / reset_restores_initial / model_covers_state / module_objects_known decided by the kernel on the inventory REGENERATED from the source (translator T2), history_independent on the model; streams run thousands of programs in one interpreter against a model that starts fresh; fresh-subprocess oracle.", "6 C12"),
  "C13": ("Theorems on the evaluation/caching state machine (fresh objects evaluate to the latest solution; cached ones are stale: kernel-checked witness); scripted histories of solves/edits/evaluations; real re-solves. Partial, with three known findings.", "6 C13"),
  "C15": ("blocks_sum_back, one_block_identity, ortho_complete, ortho_only, real_projection_sound on the literal model of BlockPartition; cls/collect streams; direct oracle on random decompositions.", "6 C15"),
